@@ -31,6 +31,13 @@ MUTANTS = {
     "default-first": ("        tests_str += \"only %s\\n\" % default\n", "        tests_str = \"only %s\\n\" % default\n"),
     # swapped comparison in the conflict guard
     "conflict-guard-swapped": ("            if nets_str != \"\":\n", "            if nets_str == \"\" and \"nets\" in param_dict:\n"),
+    # regression to the code before /repo 893de05: the conflict is only checked in the nets= branch
+    "regress-nets-order": ("                if nets_str != \"\" and explicit_nets is not None:\n",
+                           "                if False:\n"),
+    # regression to the code before /repo 6e359ac: object restriction keys matched by prefix
+    "regress-prefix-match": [("if re.fullmatch(\"(only|no)_nets\", key):", "if re.match(\"(only|no)_nets\", key):"),
+                             ("if re.fullmatch(f\"(only|no)_{vm_name}\", key):",
+                              "if re.match(f\"(only|no)_{vm_name}\", key):")],
 }
 
 
@@ -39,11 +46,14 @@ def main():
     src = open(SRC).read()
     out = {}
     for name in names:
-        old, new = MUTANTS[name]
-        assert src.count(old) == 1, f"{name}: pattern occurs {src.count(old)} times"
+        edits = MUTANTS[name] if isinstance(MUTANTS[name], list) else [MUTANTS[name]]
+        mutated = src
+        for old, new in edits:
+            assert mutated.count(old) == 1, f"{name}: pattern occurs {mutated.count(old)} times"
+            mutated = mutated.replace(old, new)
         d = tempfile.mkdtemp(prefix="i2n-verif-mut-")
         path = os.path.join(d, "cmd_parser.py")
-        open(path, "w").write(src.replace(old, new))
+        open(path, "w").write(mutated)
         env = dict(os.environ, I2N_C11_MUTANT=path, VERIF_SEED=os.environ.get("VERIF_SEED", "1"))
         p = subprocess.run([os.path.join(HERE, "check"), "C11", "--tier", "quick", "--no-build"], env=env,
                            stdout=subprocess.PIPE, stderr=subprocess.STDOUT, text=True)
